@@ -52,6 +52,8 @@ pub fn s_ty(tr: &Tr, name: &str, args: &[&Type]) -> Option<R<String>> {
     match name {
         "GenericZipWriter" => Some(Ok("Rs.S.Inner".into())),
         "Hasher" => Some(Ok("Rs.Hasher".into())),
+        // a `ZipCryptoKeys` value is represented by the password it was derived from (the model's treatment)
+        "ZipCryptoKeys" => Some(Ok("Bytes".into())),
         "Vec" if args.len() == 1 => match tr.ty(args[0]) {
             Ok(e) if e != "UInt8" => Some(Ok(format!("(List {e})"))),
             _ => None,
@@ -286,8 +288,28 @@ fn field_chain(e: &Expr) -> Option<Vec<String>> {
         Expr::Paren(p) => field_chain(&p.expr),
         Expr::Reference(r) => field_chain(&r.expr),
         Expr::Unary(u) if matches!(u.op, UnOp::Deref(_)) => field_chain(&u.expr),
+        // `*place.get_mut()` (an atomic cell reached through `&mut`)
+        Expr::MethodCall(m) if m.method == "get_mut" && m.args.is_empty() => field_chain(&m.receiver),
         _ => None,
     }
+}
+
+/// `*PLACE.as_mut().unwrap()` → PLACE
+fn opt_payload_place(e: &Expr) -> Option<&Expr> {
+    let e = match e {
+        Expr::Unary(u) if matches!(u.op, UnOp::Deref(_)) => &*u.expr,
+        _ => return None,
+    };
+    if let Expr::MethodCall(u) = e {
+        if u.method == "unwrap" && u.args.is_empty() {
+            if let Expr::MethodCall(a) = &*u.receiver {
+                if a.method == "as_mut" && a.args.is_empty() {
+                    return Some(&a.receiver);
+                }
+            }
+        }
+    }
+    None
 }
 
 fn is_path(e: &Expr, segs: &[&str]) -> bool {
@@ -455,6 +477,13 @@ impl<'a> Tr<'a> {
                         }
                     }
                     "into" => return self.type_of(&m.receiver),
+                    "unwrap_or" if m.args.len() == 1 => {
+                        if let Some(t) = self.type_of(&m.receiver) {
+                            if let Some(x) = t.strip_prefix("(Option ").and_then(|x| x.strip_suffix(')')) {
+                                return Some(x.to_string());
+                            }
+                        }
+                    }
                     "write" => {
                         if self.type_of(&m.receiver).as_deref() == Some("Bytes") {
                             return Some("(Except ZErr UInt64)".into());
@@ -475,8 +504,12 @@ impl<'a> Tr<'a> {
                 if is_path(&c.func, &["mem", "replace"]) && c.args.len() == 2 {
                     return self.type_of(&c.args[0]);
                 }
+                if (is_path(&c.func, &["Vec", "new"]) || is_path(&c.func, &["String", "new"])) && c.args.is_empty() {
+                    return Some("Bytes".into());
+                }
                 None
             }
+            Expr::Struct(st) if path_last(&st.path) == "ZipCryptoWriter" => Some("Model.EncState".into()),
             _ => None,
         }
     }
@@ -547,6 +580,9 @@ impl<'a> Tr<'a> {
                     self.s_assign(place, v)?;
                     return Ok(Some(t));
                 }
+                if (is_path(&c.func, &["Vec", "new"]) || is_path(&c.func, &["String", "new"])) && c.args.is_empty() {
+                    return Ok(Some("([] : Bytes)".into()));
+                }
                 if is_path(&c.func, &["Hasher", "new"]) && c.args.is_empty() {
                     return Ok(Some("Rs.Hasher.new".into()));
                 }
@@ -587,6 +623,40 @@ impl<'a> Tr<'a> {
                         let c = self.s_chain(e).ok_or("alias")?;
                         return Ok(Some(c.join(".")));
                     }
+                }
+                Ok(None)
+            }
+            // ZipCryptoWriter { writer: SINK, buffer: vec![], keys }
+            Expr::Struct(st) if path_last(&st.path) == "ZipCryptoWriter" => {
+                let mut keys: Option<String> = None;
+                for f in &st.fields {
+                    let n = match &f.member { Member::Named(n) => n.to_string(), _ => return Err("ZipCryptoWriter field".into()) };
+                    match n.as_str() {
+                        "writer" => {
+                            if self.type_of(&f.expr).as_deref() != Some("Unit") {
+                                return Err("ZipCryptoWriter over something that is not the bare sink".into());
+                            }
+                            let _ = self.expr(&f.expr)?;
+                        }
+                        "buffer" => {
+                            let ok = matches!(&f.expr, Expr::Macro(m) if macro_name(&m.mac) == "vec" && m.mac.tokens.is_empty());
+                            if !ok {
+                                return Err("ZipCryptoWriter with a non-empty buffer".into());
+                            }
+                        }
+                        "keys" => keys = Some(self.expr(&f.expr)?),
+                        other => return Err(format!("ZipCryptoWriter field {other}")),
+                    }
+                }
+                let k = keys.ok_or("ZipCryptoWriter without keys")?;
+                Ok(Some(format!("({{ pw := {k}, buffer := [] }} : Model.EncState)")))
+            }
+            // string + "literal"
+            Expr::Binary(b) if matches!(b.op, BinOp::Add(_)) && self.type_of(&b.left).as_deref() == Some("Bytes") => {
+                if let Expr::Lit(ExprLit { lit: Lit::Str(ls), .. }) = &*b.right {
+                    let l = self.expr(&b.left)?;
+                    let bytes: Vec<String> = ls.value().bytes().map(|x| format!("0x{x:02x}")).collect();
+                    return Ok(Some(format!("({l} ++ [{}])", bytes.join(", "))));
                 }
                 Ok(None)
             }
@@ -672,6 +742,29 @@ impl<'a> Tr<'a> {
                 let h = self.expr(&m.receiver)?;
                 let a = self.expr(&m.args[0])?;
                 self.s_assign(&m.receiver, format!("Rs.Hasher.update {h} {a}"))?;
+                return Ok(Some("()".into()));
+            }
+            // opt.unwrap_or(v)
+            "unwrap_or" if m.args.len() == 1 => {
+                if let Some(t) = self.type_of(&m.receiver) {
+                    if let Some(x) = t.strip_prefix("(Option ").and_then(|x| x.strip_suffix(')')) {
+                        let x = x.to_string();
+                        let o = self.expr(&m.receiver)?;
+                        self.expect = Some(x);
+                        let mark = self.lines.len();
+                        let d = self.expr(&m.args[0])?;
+                        if self.lines.len() != mark {
+                            return Err("unwrap_or argument with effects".into());
+                        }
+                        return Ok(Some(format!("(Option.getD {o} {d})")));
+                    }
+                }
+            }
+            // vec.push(x) on a vector place
+            "push" if m.args.len() == 1 && self.type_of(&m.receiver).map(|t| t.starts_with("(List ")).unwrap_or(false) && self.s_is_splace(&m.receiver) => {
+                let v = self.expr(&m.receiver)?;
+                let x = self.expr(&m.args[0])?;
+                self.s_assign(&m.receiver, format!("Rs.push {v} {x}"))?;
                 return Ok(Some("()".into()));
             }
             // atomic_cell.load()
@@ -840,6 +933,16 @@ impl<'a> Tr<'a> {
                 self.emit(format!("let {t} ← Rs.S.io (Rs.S.zc_finish ext {w} {c}) self"));
                 return Ok(t);
             }
+            // zip_crypto_writer.write_all(bytes)?  : buffered, never fails
+            if name == "write_all" && m.args.len() == 1 && self.type_of(&m.receiver).as_deref() == Some("Model.EncState") && matches!(&*m.receiver, Expr::Path(_)) {
+                let w = self.expr(&m.receiver)?;
+                if !self.mut_vars.contains(&w) {
+                    return Err("write_all on an immutable ZipCryptoWriter".into());
+                }
+                let a = self.expr(&m.args[0])?;
+                self.emit(format!("{w} := Rs.S.zc_write {w} {a}"));
+                return Ok("()".into());
+            }
             // opt.ok_or(e)? / opt.ok_or_else(|| e)?
             if (name == "ok_or" || name == "ok_or_else") && m.args.len() == 1 {
                 let ety = self.type_of(&m.receiver);
@@ -958,6 +1061,19 @@ impl<'a> Tr<'a> {
                     _ => return Ok(false),
                 };
                 self.s.alias.remove(&name);
+                // let mut x = [0u8; N];
+                if let Expr::Repeat(rp) = init {
+                    let zero = matches!(&*rp.expr, Expr::Lit(ExprLit { lit: Lit::Int(i), .. }) if i.base10_parse::<u64>().ok() == Some(0) && (i.suffix() == "u8" || i.suffix().is_empty()));
+                    if let (true, Expr::Lit(ExprLit { lit: Lit::Int(n), .. })) = (zero, &*rp.len) {
+                        let n = n.base10_parse::<u64>().map_err(|e| e.to_string())?;
+                        let m = if _mutable { "mut " } else { "" };
+                        self.emit(format!("let {m}{name} : Bytes := Rs.zeros {n}"));
+                        self.vars.insert(name.clone(), "Bytes".into());
+                        if _mutable { self.mut_vars.insert(name); } else { self.mut_vars.remove(&name); }
+                        return Ok(true);
+                    }
+                    return Err("array repeat expression other than zero bytes".into());
+                }
                 // let writer = self.inner.get_plain();
                 if let Expr::MethodCall(m) = init {
                     if m.method == "get_plain" && m.args.is_empty() && self.s_is_inner(&m.receiver) {
@@ -1045,7 +1161,7 @@ impl<'a> Tr<'a> {
 
     fn s_is_splace(&self, lhs: &Expr) -> bool {
         match self.s_chain(lhs) {
-            Some(c) => c[0] == "self" || self.s.alias.contains_key(&c[0]),
+            Some(c) => c[0] == "self" || self.s.alias.contains_key(&c[0]) || (c.len() > 1 && self.mut_vars.contains(&c[0]) && self.vars.get(&c[0]).map(|t| t.starts_with("Gen.")).unwrap_or(false)),
             None => false,
         }
     }
@@ -1057,6 +1173,27 @@ impl<'a> Tr<'a> {
                 self.expect = self.type_of(&a.left);
                 let v = self.expr(&a.right)?;
                 self.s_assign(&a.left, v)?;
+                Ok(true)
+            }
+            // *PLACE.as_mut().unwrap() op= v   (PLACE an `Option` place: panics when `None`)
+            Expr::Binary(b) if is_assign_op(&b.op) && opt_payload_place(&b.left).is_some() => {
+                let place = opt_payload_place(&b.left).unwrap();
+                if !self.s_is_splace(place) {
+                    return Err("`as_mut().unwrap()` of something that is not a place".into());
+                }
+                let inner_ty = self.type_of(place).and_then(|t| t.strip_prefix("(Option ").and_then(|x| x.strip_suffix(')')).map(|x| x.to_string())).ok_or("as_mut().unwrap() on a non-Option")?;
+                let o = self.expr(place)?;
+                let cur = self.bind_m(o);
+                self.expect = Some(inner_ty);
+                let r = self.expr(&b.right)?;
+                use BinOp::*;
+                let v = match b.op {
+                    BitAndAssign(_) => format!("({cur} &&& {r})"),
+                    BitOrAssign(_) => format!("({cur} ||| {r})"),
+                    BitXorAssign(_) => format!("({cur} ^^^ {r})"),
+                    _ => return Err("compound assignment through an Option".into()),
+                };
+                self.s_assign(place, format!("(some {v})"))?;
                 Ok(true)
             }
             Expr::Binary(b) if is_assign_op(&b.op) && self.s_is_splace(&b.left) => {
